@@ -134,7 +134,7 @@ def run(R):
     R.rule = RULE
     rng = R.rng
     quick = R.tier == "quick"
-    n = 1100 if quick else 9000
+    n = 900 if quick else 9000
     datasets = [(witness_dataset(), None, "in memory")]
     datasets[0] = (datasets[0][0], L.order_ops(datasets[0][0], rng, "sorted"), "in memory")
     for i in range(n):
@@ -166,6 +166,14 @@ def run(R):
             import traceback
             R.disagree("run_datasets: the implementation left the harness in an unexpected state",
                        {"datasets": [a, a + chunk]}, traceback.format_exc()[-1500:], "no exception")
+    try:
+        L.run_info_sessions(R, 70 if quick else 1500, "C04")
+    except L.ImplAbort:
+        pass
+    except Exception:  # noqa: BLE001
+        import traceback
+        R.disagree("info sessions: the implementation left the harness in an unexpected state",
+                   {"stream": "info-sessions"}, traceback.format_exc()[-1500:], "no exception")
     R.extra.pop("_dir_counter", None)
     R.notes.append("zlib.compress / zlib.decompress are an oracle: the model is handed the real "
                    "library's answers for exactly the byte strings it asks for")
@@ -177,6 +185,8 @@ def _replay_once(R, payload):
     case = payload.get("case") or {}
     if not case and payload.get("disagreements"):
         case = payload["disagreements"][0].get("case") or {}
+    if case.get("stream") == "info-sessions" and "steps" in case:
+        return L.replay_info_session(R, case, "C04")
     if "ops" not in case and "grid" in case:
         # hang report: only the dataset parameters were recorded; store the whole grid
         g = case["grid"]
